@@ -149,7 +149,7 @@ PLAN = {
              "distinct = distinct text",
     ),
     "C12": dict(
-        streams=[("corpus", 0, 0), ("limit", 12000, 120000), ("legacy-limit", 3000, 30000)],
+        streams=[("corpus", 0, 0), ("limit", 12000, 120000), ("legacy-limit", 3000, 30000), ("hist", 3000, 30000)],
         theorems=[],
         facts=[F + "defaults_eq", F + "legacyDefaults_eq", F + "newOptions_eq", F + "errorSites_eq", F + "conditions_eq"],
         rule="patches containing copies; the cumulative copy totals are learnt from the library's own error values and the limit is set to "
